@@ -188,6 +188,49 @@ example :
         = .actionError (some 714) (some 500) := by
   decide +kernel
 
+/-- the hypotheses of `call_roundtrip` are jointly satisfiable on that shape: the variables are
+    `VarAgreeWF` (no codec hypothesis: `varAgreeWF_modelled`), the arguments valid for the definition
+    (`ArgsOk` on the server's action only), the results valid (`ValsOk`) -/
+example :
+    let vA : VarDef := ⟨"VarA".toList, "ui2".toList, false, some "1".toList, some "10".toList, none, none⟩
+    let vS : VarDef := ⟨"VarS".toList, "string".toList, false, none, none, some ["a".toList, "b<&>".toList], none⟩
+    let vE : VarDef := ⟨"VarE".toList, "i4".toList, true, none, none, none, some "5".toList⟩
+    let act : SAct := ⟨"Act".toList, [⟨"A".toList, vA⟩, ⟨"S".toList, vS⟩], [⟨"R".toList, vE⟩, ⟨"S2".toList, vS⟩]⟩
+    let args : List (Str × Val) := [("S".toList, .str "b<&>".toList), ("A".toList, .int 5)]
+    let vals : List (Str × Val) := [("R".toList, .int (-7)), ("S2".toList, .str "a".toList)]
+    (∀ a ∈ act.ins, VarAgreeWF [] a.var) ∧ ArgsOk [] args act.ins ∧ ValsOk [] act vals := by
+  refine ⟨?_, ?_, ?_⟩
+  · intro a ha
+    simp only [List.mem_cons, List.not_mem_nil, or_false] at ha
+    rcases ha with rfl | rfl
+    · apply varAgreeWF_modelled (Or.inl (by decide)) (by decide)
+      · intro s h; simp at h; rcases h with rfl | rfl <;> decide
+      · intro s h; simp at h; rcases h with rfl | rfl <;> decide
+      · intro a ha; simp at ha
+    · apply varAgreeWF_modelled (Or.inr (Or.inl (by decide))) (by decide)
+      · intro s h; simp at h; rcases h with rfl | rfl <;> decide
+      · intro s h; simp at h
+      · intro a ha v hv
+        simp at ha
+        rcases ha with rfl | rfl
+        · have e : inp [] "string".toList "a".toList = some (.str "a".toList) := by decide
+          have : some v = some (.str "a".toList) := hv.symm.trans e
+          cases this; decide
+        · have e : inp [] "string".toList "b<&>".toList = some (.str "b<&>".toList) := by decide
+          have : some v = some (.str "b<&>".toList) := hv.symm.trans e
+          cases this; decide
+  · intro a ha
+    simp only [List.mem_cons, List.not_mem_nil, or_false] at ha
+    rcases ha with rfl | rfl
+    · exact ⟨.int 5, by decide, by decide, by decide⟩
+    · exact ⟨.str "b<&>".toList, by decide, by decide, by decide⟩
+  · intro p hp
+    simp only [List.mem_cons, List.not_mem_nil, or_false] at hp
+    rcases hp with rfl | rfl
+    · exact ⟨⟨"R".toList, ⟨"VarE".toList, "i4".toList, true, none, none, none, some "5".toList⟩⟩, by decide, by decide, by decide⟩
+    · exact ⟨⟨"S2".toList, ⟨"VarS".toList, "string".toList, false, none, none, some ["a".toList, "b<&>".toList], none⟩⟩,
+        by decide, by decide, by decide⟩
+
 /-- The domain of `call_roundtrip` is "names distinct per action **and direction**": `hnd` speaks of
     the in-arguments only and `ValsOk` looks results up among the out-arguments only, so an action
     may use one name for an in- and an out-argument (`UpnpAction.argument(name, direction)`), bound
